@@ -186,12 +186,17 @@ def reachN (o : Obj) : Nat → List String → List String
     the file has `o.fns.length` nodes, so that many rounds close it). -/
 def reach (o : Obj) (roots : List String) : List String := reachN o o.fns.length roots
 
-/-- Some function reachable from `roots` stores to `field` of an existing object. -/
-def mayWrite (o : Obj) (roots : List String) (field : String) : Bool :=
-  (reach o roots).any (fun n =>
-    match findFn o n with
-    | some f => fnWrites f field
-    | none => false)
+/-- The fields `name` itself stores to, of an object that existed before the call. -/
+def ownWritten (o : Obj) (name : String) : List String :=
+  match findFn o name with
+  | some f => if !f.wholeObject.isEmpty then fieldNames o else (f.stores.filter (fun s => s.base != "fresh")).map (·.field)
+  | none => []
+
+/-- Does `name` itself store to `field` of an existing object? -/
+def ownWrites (o : Obj) (name field : String) : Bool := (ownWritten o name).contains field
+
+/-- The fields some function reachable from `roots` stores to (with repetitions). -/
+def writtenFields (o : Obj) (roots : List String) : List String := (reach o roots).flatMap (ownWritten o)
 
 /-- `name` puts the entry value of `field` back on every path: each of its own stores to the field is
     a plain unconditional store through the first parameter and the last one stores the saved entry
@@ -202,23 +207,24 @@ def restoresSaved (o : Obj) (name field : String) : Bool :=
   | none => true
   | some l => ss.all (fun s => s.op == "=" && !s.cond && s.base == "param0") && l.value == "saved:" ++ field
 
-/-- Does `name` itself store to `field` of an existing object? -/
-def ownWrites (o : Obj) (name field : String) : Bool :=
-  match findFn o name with
-  | some f => fnWrites f field
-  | none => false
+/-- The fields a call of entry point `e` may leave different from what it found: what `e` or anything
+    reachable from it stores to — except the fields `e` brackets (whatever its callees do to them in
+    between, `e` puts the saved entry value back on every path). -/
+def netWritten (o : Obj) (e : String) : List String :=
+  (ownWritten o e ++ writtenFields o (calleesOnObj o e)).filter
+    (fun f => !(ownWrites o e f && restoresSaved o e f))
 
-/-- May a call of entry point `e` leave `field` different from what it found?  Not if `e` brackets
-    the field (whatever its callees do in between); otherwise if `e` or anything reachable stores to it. -/
-def netMayWrite (o : Obj) (e field : String) : Bool :=
-  if ownWrites o e field && restoresSaved o e field then false
-  else ownWrites o e field || mayWrite o (calleesOnObj o e) field
+/-- The fields a run made of calls of the entry points `k` may leave changed (with repetitions). -/
+def runWritten (o : Obj) (k : List String) : List String := k.flatMap (netWritten o)
 
 /-- A run made of calls of the entry points `k` leaves `field` as it found it. -/
-def keepsNet (o : Obj) (k : List String) (field : String) : Bool := k.all (fun e => !netMayWrite o e field)
+def keepsNet (o : Obj) (k : List String) (field : String) : Bool := !(runWritten o k).contains field
 
 /-- Fields a run of kind `k` may leave changed (struct order): the model's prediction for OBS `dirty`. -/
 def netFields (o : Obj) (k : List String) : List String := (fieldNames o).filter (fun f => !keepsNet o k f)
+
+/-- None of the fields `l` may be left changed by a run of kind `k` (one pass over what the run writes). -/
+def keepsAll (o : Obj) (k : List String) (l : List String) : Bool := (runWritten o k).all (fun f => !l.contains f)
 
 /-- Must the user call the setters of the sticky fields again after a run of kind `k` (and reset)?
     Only if such a run may leave one of them changed. -/
